@@ -15,6 +15,54 @@ from vlib import log
 PID = "C18"
 
 
+def throttle_trace(wd, V, thr):
+    """Throttle.tla exhaustively (small constants, both client kinds), then the harness trace against ThrottleTrace."""
+    states = 0
+    for retry in ("TRUE", "FALSE"):
+        cfg = ("SPECIFICATION Spec\nCONSTANTS\n Servers <- MCServers\n Live <- MCLive\n K = 2\n Retry = %s\n KF_FailKeepsSlot = FALSE\n"
+               "INVARIANTS AtMostK SlotsMatch\nPROPERTY EveryLiveContacted\nCHECK_DEADLOCK FALSE\n" % retry)
+        r = vlib.tlc(wd, "MC_Throttle", "thr%s.cfg" % retry, files={"thr%s.cfg" % retry: cfg}, timeout=600)
+        if not r.ok:
+            raise vlib.Inconclusive("TLC Throttle: %s %s" % (r.violated, (r.error or "")[-1200:]))
+        states += r.distinct
+    log("TLC Throttle (5 servers, 3 answering, K = 2, with and without retry): %d distinct states; AtMostK, SlotsMatch, EveryLiveContacted hold" % states)
+    trace, k, nfail, n = thr["trace"], thr["capacity"], thr["failing"], thr["servers"]
+    # the observation itself: connections between accept and up/fail at any time
+    inflight, peak = {}, 0
+    for e in trace:
+        if e["ev"] == "accept":
+            inflight[e["s"]] = inflight.get(e["s"], 0) + 1
+        else:
+            inflight[e["s"]] = inflight.get(e["s"], 0) - 1
+        peak = max(peak, sum(v for v in inflight.values() if v > 0))
+    thr["peak_establishing"] = peak
+    if peak > k:
+        V.violation("%d connections were being established at the same time, the throttle has %d slots" % (peak, k),
+                    {"capacity": k, "peak": peak, "trace": trace[:200]})
+    mod = ("---- MODULE GThr ----\nEXTENDS ThrottleTrace\nGServers == 1..%d\nGLive == %d..%d\n====\n" % (nfail + n, nfail + 1, nfail + n))
+    def validate(name, tr):
+        vlib.write_ndjson(os.path.join(wd, name), tr)
+        cfg = ("SPECIFICATION TSpec\nCONSTANTS\n Servers <- GServers\n Live <- GLive\n K = %d\n Retry = TRUE\n KF_FailKeepsSlot = FALSE\n"
+               " TraceFile = \"%s\"\nINVARIANT Report\nCHECK_DEADLOCK FALSE\n" % (k, name))
+        r = vlib.tlc(wd, "GThr", name + ".cfg", files={"GThr.tla": mod, name + ".cfg": cfg}, timeout=600)
+        if not r.ok:
+            raise vlib.Inconclusive("TLC ThrottleTrace: %s %s" % (r.violated, (r.error or "")[-1200:]))
+        acc = [l for l in r.out.splitlines() if l.startswith('<<"ACCEPTED"')]
+        return (acc[0] if acc else None), r.distinct
+    acc, st = validate("thr_trace.ndjson", trace)
+    if acc is None and peak <= k:
+        V.diverge("the throttle trace is not a behaviour of ThrottleTrace although never more than K connections were being established")
+    if acc is not None and "TRUE" not in acc and thr["contacted"] == thr["servers"]:
+        V.diverge("ThrottleTrace: not every answering server is contacted in the model's final state (%s) although the harness saw all" % acc)
+    # binding self-test: K+1 accepts in a row must be rejected
+    bad = [{"ev": "accept", "s": i + 1} for i in range(k + 1)]
+    acc2, _ = validate("thr_bad.ndjson", bad)
+    if acc2 is not None:
+        raise vlib.Inconclusive("ThrottleTrace accepts a trace with K+1 connections being established at once: the trace spec does not bind")
+    log("throttle trace: %d events, peak %d of %d slots, accepted by ThrottleTrace: %s; corrupted trace rejected" % (len(trace), peak, k, acc))
+    return states + st
+
+
 def run(tier, replay):
     V = vlib.Verdict(PID, tier)
     maxlen = 4 if tier == "quick" else 6
@@ -50,7 +98,9 @@ def run(tier, replay):
         thr = json.load(open(tpath))
         if thr["contacted"] != thr["servers"]:
             V.violation("with long-lived sessions and more servers (%d) than throttle slots (%d) only %d servers were contacted" %
-                        (thr["servers"], thr["capacity"], thr["contacted"]), thr)
+                        (thr["servers"], thr["capacity"], thr["contacted"]), dict(thr, trace=thr["trace"][:120]))
+        # ... and the recorded trace of that run is a behaviour of spec/Throttle.tla (never more than K between accept and up/fail)
+        thr_states = throttle_trace(wd, V, thr)
         # ports are renamed 1..n (wanted listeners), n+1 = default-port listener
         wanted = list(range(1, len(contact["wanted"]) + 2))
         round1, allc = [], []
@@ -95,8 +145,9 @@ def run(tier, replay):
         for b in res["bad"] or []:
             V.violation("ServerList() differs from the distinct matching entries (%s form)" % b["form"], b)
         nontriv = sum(1 for c in cases if len(set(c["input"])) < len(c["input"]) or len(c["wanted"]) < len(set(c["input"])))
-        cov = {"states": r.distinct, "transitions": r.generated,
-               "traces_validated_against_impl": len(records) + 1,
+        cov = {"states": r.distinct + thr_states, "transitions": r.generated,
+               "throttle": {k: v for k, v in thr.items() if k != "trace"}, "throttle_trace_events": len(thr["trace"]),
+               "traces_validated_against_impl": len(records) + 2,
                "evaluations": res["evaluations"] + len(records) + 1,
                "distinct_nontrivial": nontriv,
                "rule": "cases = all lists up to MaxLen over 5 abstract entries x 4 filters (TLC); non-trivial = the list has a "
